@@ -211,6 +211,7 @@ func UFBytes(name string, outLen int, args ...[]byte) []byte {
 }
 func UFInverse(f, g string) {}
 func UFLeftInverse(f, g string) {}
+func UFCollisionFree(f string)    {}
 
 func FlatTime(name string) time.Time            { return time.Unix(0, num(name)).UTC() }
 // CivilTime: an arbitrary instant given by calendar fields (engine: civil-form symbolic time; natively built by time.Date)
